@@ -125,6 +125,21 @@ Example C11_cancelled_put :
   map fst (store (ss_run Bolt (ss_init 10) (cancelled_put_schedule true))) = [0; 1; 2; 3; 4; 5].
 Proof. vm_compute. repeat split; reflexivity. Qed.
 
+(* streams are identified by their connection (remote host and source port; here host*100000+port):
+   two connections from one host do not replace each other, and the teardown of a stalled old
+   connection does not unregister the connection that replaced it from a new port *)
+Example C11_connections_of_one_host :
+  let two := ss_run Bolt (ss_init 10)
+    [SPut 11; SPut 12; SStart 541001 0; SRegister 0; SStart 541002 1; SAck 1 true; SAck 1 true; SRegister 1;
+     SPut 13; SAck 0 true; SAck 1 true; SPut 14; SAck 0 true; SAck 1 true] in
+  let renew := ss_run Bolt (ss_init 10)
+    [SPut 11; SPut 12; SStart 641001 0; SRegister 0; SPut 13; SStart 641002 2; SAck 1 true; SAck 1 true; SRegister 1;
+     SPut 14; SAck 1 true; SAck 0 false; SPut 15; SAck 1 true; SPut 16; SAck 1 true] in
+  map (fun s => map fst (s_sent s)) (streams two) = [[3; 4]; [1; 2; 3; 4]] /\ map s_error (streams two) = [None; None] /\
+  map (fun s => map fst (s_sent s)) (streams renew) = [[]; [2; 3; 4; 5; 6]] /\
+  map s_error (streams renew) = [Some SErrSend; None] /\ reg renew = [(641002, 1%nat)].
+Proof. vm_compute. repeat split; reflexivity. Qed.
+
 (* ---------- non-vacuity: two concurrent streams and a reconnect under the same id; the streams
    have delivered several rounds and are registered ---------- *)
 Definition busy_schedule : list sev :=
